@@ -117,6 +117,25 @@ def behaviour_runs(chk, n):
         ps = E.plan_canon(evs)
         exit_code = E.exit_code_of(evs)
         failing = [e for e in ps if e["k"] == "ScenarioFinished" and e["st"] in ("failure", "error")]
+        # the failure is recorded with the request that caused it
+        for ev in evs:
+            if type(ev).__name__ == "ScenarioFinished" and ev.status.value == "failure":
+                rec = ev.recorder
+                failed = [(cid, c) for cid, cs in rec.checks.items() for c in cs if c.failure_info is not None]
+                ok = bool(failed) and all(cid in rec.interactions and rec.interactions[cid].request is not None
+                                          and cid in rec.cases and c.failure_info.code_sample for cid, c in failed)
+                # the recorded request really is one that got a failing answer from the scripted API
+                if ok:
+                    for cid, c in failed:
+                        resp = rec.interactions[cid].response
+                        if resp is None or resp.status_code < 500:
+                            ok = False
+                if not ok:
+                    chk.violation("C05:recorder:failing-scenario-without-recorded-check-failure-and-request",
+                                  "a scenario finished as FAILURE but its recorder does not hold the failing check together "
+                                  "with the request/response that caused it",
+                                  {"label": ev.label, "checks": {k: [(c.name, c.status.value) for c in v] for k, v in rec.checks.items()},
+                                   "interactions": list(rec.interactions)})
         key = [n_ops, bad, workers, [p.name for p in phases], cof]
         chk.case("behaviour:engine-run", key=key, nontrivial=True,
                  sample={"bad_from_call": bad, "workers": workers, "phases": [p.name for p in phases], "exit": exit_code,
